@@ -334,6 +334,24 @@ impl std::io::Write for FaultWrite {
     }
 }
 
+/// WA <dict> <aexp> <budget>: Avp::encode_to of one AVP, on its own, into the fault-injecting writer
+fn run_faultwrite_avp(st: &State, t: &mut Toks) -> PResult<String> {
+    let dict = st.dicts.get(t.next()?).ok_or_else(|| "unknown dict".to_string())?.clone();
+    let e = parse_aexp(t)?;
+    let a = match eval_a(&e, &dict)? {
+        Some(a) => a,
+        None => return Ok("WA nobuild".into()),
+    };
+    let budget = t.u64()? as usize;
+    let mut w = FaultWrite { budget, behav: std::collections::VecDeque::new(), accepted: Vec::new() };
+    let r = a.encode_to(&mut w);
+    let mut out = String::from(if r.is_ok() { "WA ok " } else { "WA err " });
+    let _ = write!(out, "{:x} ", w.accepted.len());
+    hex(&mut out, &w.accepted[..w.accepted.len().min(16)]);
+    let _ = write!(out, " LEN {:x} PAD {:x}", a.get_length(), a.get_padding());
+    Ok(out)
+}
+
 fn run_faultwrite(st: &State, t: &mut Toks) -> PResult<String> {
     match build_history(st, t)? {
         Err(line) => Ok(line),
@@ -549,6 +567,7 @@ pub fn handle(st: &mut State, line: &str) -> String {
             "H" => run_history(st, &mut t),
             "G" => run_access(st, &mut t),
             "W" => run_faultwrite(st, &mut t),
+            "WA" => run_faultwrite_avp(st, &mut t),
             "SD" => crate::stream::decode_n(st, &mut t),
             "SE" => crate::stream::encode_1(st, &mut t),
             "SV" => crate::stream::serve(st, &mut t),
